@@ -443,8 +443,12 @@ class PolygonTensor(PolytopeTensor):
             if isinstance(other, Point) and i.ndim == 1:
                 other = Point(np.delete(other.array, i), copy=False)
             else:
-                s = other.shape[:-1] + (1, other.shape[-1])
-                other = np.delete(other.array, np.ravel_multi_index((*tuple(np.indices(s[:-1])), i), s))
+                other_array = other.array
+                if other_array.ndim < i.ndim:
+                    # a single point against a collection of polygons
+                    other_array = np.broadcast_to(other_array, i.shape[:-1] + other_array.shape[-1:])
+                s = other_array.shape[:-1] + (1, other_array.shape[-1])
+                other = np.delete(other_array, np.ravel_multi_index((*tuple(np.indices(s[:-1])), i), s))
                 other = PointCollection(other.reshape(s[:-2] + (-1,)), copy=False)
 
             # TODO: only test coplanar points
